@@ -151,6 +151,7 @@ class WorldGen:
                 live.append(("sub", 0, ("i%d" % b,), p0, nm0, v))
             live.append(("reg", 0, ("i%d" % i,), p0, nm0, (0, 0)))
         carry = []
+        layout = set()
 
         def emit(hot, line):
             """the mutation bracketed by the same queries before and after; with probability `quiet` the queries after
@@ -325,7 +326,7 @@ class WorldGen:
         def scen_cold_super():
             """the first interface query that touches a new subclass S(P, Mixin) goes through super(P, instance-of-S),
             after super(P, instance-of-P) has been answered"""
-            ps = [c for c in cb]
+            ps = [c for c in cb if c not in layout]       # instances of a slots-only class cannot carry declarations
             pc = rnd.choice(ps)
             m_id, s_id = max(cb) + 1, max(cb) + 2
             o1, o2 = max(objs) + 1, max(objs) + 2
@@ -348,6 +349,24 @@ class WorldGen:
             objs[o2] = s_id
             L.append("prov|s%d.%d" % (pc, o2))
             L.append("prov|o%d" % o2)
+            if rnd.random() < 0.6:
+                # a second leaf mixing the same class with ANOTHER mixin: what follows P in its MRO differs
+                m2, s2, o3 = max(cb) + 1, max(cb) + 2, max(objs) + 1
+                try:
+                    pycls[m2] = type("K%d" % m2, (object,), {})
+                    pycls[s2] = type("K%d" % s2, (pycls[pc], pycls[m2]), {})
+                except TypeError:
+                    return
+                cb[m2], cb[s2] = [], [pc, m2]
+                inv_cls[pycls[m2]], inv_cls[pycls[s2]] = m2, s2
+                L.append("class|%d|" % m2)
+                L.append("add|%d|%d" % (m2, rnd.randint(1, n)))
+                L.append("class|%d|%d %d" % (s2, pc, m2))
+                L.append("inst|%d|%d" % (o3, s2))
+                objs[o3] = s2
+                L.append("prov|s%d.%d" % (pc, o3))
+                L.append("prov|s%d.%d" % (pc, o2))
+                L.append("prov|o%d" % o3)
 
         def scen_entry():
             """one entry point alone, on a registry below the one that changes: asked, base mutated, asked, base
@@ -376,7 +395,34 @@ class WorldGen:
                 m2 = "unreg|%d|i%d|%d|%s" % (base, x, p, nm)
             L.extend([q, m1, q, m2, q])
 
-        scen = [(scen_entry, P.get("scen_entry", 0.03)), (scen_multi, P.get("scen_multi", 0.06)), (scen_cold_super, P.get("scen_cold_super", 0.03)),
+        def scen_layout_super():
+            """a leaf class S(Mixin, Layout) whose layout-carrying base (non-empty __slots__) is NOT its first base, and
+            super(S, instance-of-S): everything after S in the MRO, the plain mixin included"""
+            m_id, l_id, s_id = max(cb) + 1, max(cb) + 2, max(cb) + 3
+            o = max(objs) + 1
+            try:
+                pycls[m_id] = type("K%d" % m_id, (object,), {})
+                pycls[l_id] = type("K%d" % l_id, (object,), {"__slots__": ("slot",)})
+                pycls[s_id] = type("K%d" % s_id, (pycls[m_id], pycls[l_id]), {})
+            except TypeError:
+                return
+            cb[m_id], cb[l_id], cb[s_id] = [], [], [m_id, l_id]
+            layout.add(l_id)
+            for k in (m_id, l_id, s_id):
+                inv_cls[pycls[k]] = k
+            L.append("class|%d|" % m_id)
+            L.append("class|%d||s" % l_id)
+            L.append("add|%d|%d" % (m_id, rnd.randint(1, n)))
+            if rnd.random() < 0.6:
+                L.append("add|%d|%d" % (l_id, rnd.randint(1, n)))
+            L.append("class|%d|%d %d" % (s_id, m_id, l_id))
+            L.append("inst|%d|%d" % (o, s_id))
+            objs[o] = s_id
+            L.append("prov|s%d.%d" % (s_id, o))
+            L.append("prov|s%d.%d" % (m_id, o))
+            L.append("prov|o%d" % o)
+
+        scen = [(scen_layout_super, P.get("scen_layout_super", 0.02)), (scen_entry, P.get("scen_entry", 0.03)), (scen_multi, P.get("scen_multi", 0.06)), (scen_cold_super, P.get("scen_cold_super", 0.03)),
                 (scen_hit, P.get("scen_hit", 0.05)), (scen_rbases_spec, P.get("scen_rbases", 0.03)), (scen_rebuild, P.get("scen_rebuild", 0.03))]
         nsteps = rnd.randint(*(P.get("steps_big", (10, 40)) if big else P.get("steps", (6, 26))))
         W = P["weights"]       # reg unreg sub unsub isetbases classdecl objdecl rbases rebuild
@@ -590,7 +636,7 @@ def twin_stream(prop, profile, nscripts, ops):
 
 
 STALE_PROFILE = dict(weights=[1, 0.2, 0.3, 0.1, 3, 5, 1.5, 0.1, 0], nregs=(1, 2), extra=1, provq=4, arity=[1, 2], nclasses=(2, 5),
-                     keyweights=(0.15, 0.25, 0.3, 0.3), provkinds=(0.15, 0.35, 0.25, 0.25), superobj=0.5, scen_hit=0.02, scen_rbases=0, scen_rebuild=0)
+                     keyweights=(0.15, 0.25, 0.3, 0.3), provkinds=(0.15, 0.35, 0.25, 0.25), superobj=0.5, scen_hit=0.02, scen_rbases=0, scen_rebuild=0, scen_cold_super=0.08)
 
 
 def stale_stream(prop, markers, nscripts, what):
